@@ -501,7 +501,8 @@ class Emitter:
                 vt = self.ctype(v["type"])
                 if vt.is_ref or vt.dims:
                     continue
-                params.append(vt.pointer_to().decl("xc_out_" + v["name"]))
+                # a const local is exported through a pointer to non-const (the slice writes it exactly once, at its end)
+                params.append(CT(vt.base, vt.ptr + 1, vt.dims, False, vt.const and vt.ptr > 0, vt.cxx).decl("xc_out_" + v["name"]))
                 outs.append(v["name"])
             lines = [self.stmt(st, 1) for st in sl]
             if to_end:
